@@ -1160,6 +1160,9 @@ def check_process_case(case, stats=None, scratch=None):
                 _state.setdefault("flaky", []).append("%r flags=%s (%s): %s" % (render_body(case), case["flags"],
                                                                                  mode, detail))
                 return None, "flaky"
+            if "session" in _state and not bare_detection_agrees(case):
+                # which program the text *is* (bare-command detection) is property C03's question, as in the in-process tier
+                return None, "skip-bare"
             return Failure("process-outcome-differs", case,
                            "%r flags(RAISE,CMD)=%s run as %s: %s" % (render_body(case), case["flags"],
                                                                      "-c" if mode == "c" else "script file", detail),
@@ -1171,7 +1174,7 @@ def check_process_case(case, stats=None, scratch=None):
 
 def worker_process(arg):
     seed, n, scratch = arg
-    helpers.ensure()
+    _setup(scratch, quiet_fd2=True)          # an in-process session too: bare_detection_agrees needs the parser
     _state["pscratch"] = scratch
     _state["open"] = {e["id"] for e in common.load_known(PROP) if e.get("status") == "open"}
     st = Stats()
